@@ -109,7 +109,7 @@ Section INV.
   Lemma ring_in_range st t : WF st -> In t (s_runq st) -> (t < nthreads st)%nat.
   Proof.
     intros W H. destruct (Nat.ltb_spec t (nthreads st)); auto.
-    apply (wf_runq _ W) in H. rewrite getth_out in H by auto. destruct H as (_ & H). congruence.
+    apply (wf_runq _ W) in H. rewrite getth_out in H by auto. destruct H as (_ & H). exfalso; apply H; reflexivity.
   Qed.
   Lemma sleeping_not_in_ring st t : WF st -> th_state (getth st t) = SLEEPING -> ~ In t (s_runq st).
   Proof. intros W H Hin. apply (wf_runq _ W) in Hin. destruct Hin; congruence. Qed.
@@ -211,26 +211,33 @@ Section INV.
     rewrite Hpop. cbn [fst].
     destruct (perm_nodup_in _ _ _ ltac:(destruct HI2 as (_&_&_&_&X); exact X) Hperm) as (Hmem & _).
     rewrite F2 in Hmem.
-    constructor; stsimpl.
-    - rewrite F1. apply NoDup_app_single; [apply W|]. apply sleeping_not_in_ring; auto.
-    - intros u. rewrite F1, in_app_iff. change (getth (set_runq (set_sleepq st2 h') (s_runq st ++ [t])) u) with (getth st2 u).
-      rewrite G. intros [Hu|[<-|[]]].
+    match goal with |- WF ?x => set (st3 := x) end.
+    assert (R3 : s_runq st3 = s_runq st ++ [t]) by (unfold st3; stsimpl; rewrite F1; reflexivity).
+    assert (H3 : s_sleepq st3 = h') by reflexivity.
+    assert (G3 : forall u, getth st3 u = if Nat.eqb u t then set_tstate (set_twaitq (getth st t) None) READY else getth st u)
+      by (intros u; rewrite <- G; reflexivity).
+    assert (Q3 : forall q, wq_get st3 q = if (match th_waitq (getth st t) with Some q0 => qid_eqb q0 q | None => false end)
+                                          then remove_tid t (wq_get st q) else wq_get st q).
+    { intros q. change (wq_get st3 q) with (wq_get st2 q). unfold st2. apply wq_get_dequeue_ready. }
+    assert (I3 : idler_tid st3 = idler_tid st) by (apply idler_tid_nthreads; exact F6).
+    assert (T3 : forall u, ts_of st3 u = ts_of st2 u) by reflexivity.
+    assert (B3 : s_standby st3 = s_standby st) by exact F3.
+    assert (N3 : s_now st3 = s_now st) by exact F4.
+    assert (C3 : s_clock st3 = s_clock st) by exact F5.
+    clearbody st3.
+    constructor.
+    - rewrite R3. apply NoDup_app_single; [apply W|]. apply sleeping_not_in_ring; auto.
+    - intros u. rewrite R3, in_app_iff, G3. intros [Hu|[<-|[]]].
       + destruct (Nat.eqb_spec u t) as [->|]; [exfalso; eapply sleeping_not_in_ring; eauto|]. apply W; auto.
       + rewrite Nat.eqb_refl. thsimpl. split; discriminate.
-    - rewrite F1, in_app_iff. left.
-      change (idler_tid (set_runq (set_sleepq st2 h') (s_runq st ++ [t]))) with (idler_tid st2).
-      rewrite (idler_tid_nthreads _ _ F6). apply W.
-    - eapply Inv_ts_ext; [exact HI'|]. intros; reflexivity.
-    - intros u. change (getth (set_runq (set_sleepq st2 h') (s_runq st ++ [t])) u) with (getth st2 u).
-      rewrite Hmem, G, (wf_sleep _ W).
+    - rewrite R3, I3, in_app_iff. left. apply W.
+    - rewrite H3. eapply Inv_ts_ext; [exact HI'|]. intros; apply T3.
+    - intros u. rewrite H3, Hmem, G3, (wf_sleep _ W).
       destruct (Nat.eqb_spec u t) as [->|Hne]; thsimpl.
       + split; [intros (_&X); congruence|discriminate].
       + tauto.
-    - rewrite F3. apply W.
-    - intros q u.
-      change (wq_get (set_runq (set_sleepq st2 h') (s_runq st ++ [t])) q) with (wq_get st2 q).
-      change (getth (set_runq (set_sleepq st2 h') (s_runq st ++ [t])) u) with (getth st2 u).
-      unfold st2. rewrite wq_get_dequeue_ready. fold st2. rewrite G.
+    - rewrite B3. apply W.
+    - intros q u. rewrite Q3, G3.
       destruct (th_waitq (getth st t)) as [q0|] eqn:Eq.
       + destruct (qid_eqb_spec q0 q) as [->|Hne].
         * rewrite In_remove_tid by apply W. intros (Hu & Hne).
@@ -239,21 +246,31 @@ Section INV.
           apply (wf_wq_in _ W) in Hu. destruct Hu as (_ & Hu). congruence.
       + intros Hu. destruct (Nat.eqb_spec u t) as [->|]; [|apply W; auto].
         apply (wf_wq_in _ W) in Hu. destruct Hu as (_ & Hu). congruence.
-    - intros u q.
-      change (wq_get (set_runq (set_sleepq st2 h') (s_runq st ++ [t])) q) with (wq_get st2 q).
-      change (getth (set_runq (set_sleepq st2 h') (s_runq st ++ [t])) u) with (getth st2 u).
-      unfold st2. rewrite wq_get_dequeue_ready. fold st2. rewrite G.
+    - intros u q. rewrite Q3, G3.
       destruct (Nat.eqb_spec u t) as [->|Hne]; thsimpl; [discriminate|].
       intros Hq. pose proof (wf_wq_of _ W _ _ Hq) as Hu.
       destruct (th_waitq (getth st t)) as [q0|]; auto.
       destruct (qid_eqb_spec q0 q) as [->|]; auto.
       rewrite In_remove_tid by apply W. auto.
-    - intros q.
-      change (wq_get (set_runq (set_sleepq st2 h') (s_runq st ++ [t])) q) with (wq_get st2 q).
-      unfold st2. rewrite wq_get_dequeue_ready.
+    - intros q. rewrite Q3.
       destruct (th_waitq (getth st t)) as [q0|]; [|apply W].
       destruct (qid_eqb q0 q); [apply NoDup_remove_tid|]; apply W.
-    - rewrite F4, F5. apply W.
+    - rewrite N3, C3. apply W.
+  Qed.
+
+  Lemma prelocked_interrupt_frame st t e :
+    let st' := prelocked_interrupt st t e in
+    s_runq st' = s_runq st ++ [t] /\ nthreads st' = nthreads st /\ s_now st' = s_now st /\
+    s_clock st' = s_clock st /\ s_trace st' = s_trace st /\ s_standby st' = s_standby st /\
+    s_end st' = s_end st /\ s_stuck st' = s_stuck st /\ s_user st' = s_user st.
+  Proof.
+    unfold prelocked_interrupt. cbv zeta.
+    set (st1 := modth st t (fun th => set_tesrc (set_terr th e) (length (s_trace st)))).
+    destruct (dequeue_ready_frame st1 t READY) as (F1&F2&F3&F4&F5&F6&F7&F8&F9&F10).
+    set (st2 := dequeue_ready st1 t READY) in *.
+    stsimpl. rewrite F1, F4, F5, F7, F3, F9, F10, F8.
+    change (nthreads (set_runq ?a ?b)) with (nthreads a). change (nthreads (set_sleepq ?a ?b)) with (nthreads a).
+    rewrite F6. unfold st1. rewrite nthreads_modth. repeat split; reflexivity.
   Qed.
 
   Lemma WF_thread_interrupt st t e : WF st -> WF (thread_interrupt st t e).
@@ -290,37 +307,713 @@ Section INV.
   Lemma WF_do_create st k j :
     WF st -> (k < nthreads st)%nat -> th_state (getth st k) = NOTCREATED -> WF (do_create st k j).
   Proof.
-    intros W Hk Hs. unfold do_create.
+    intros W Hk Hs. unfold do_create. cbv zeta.
     set (th := mkThread READY 0 None 0 j false 0 0 [] 0 false 0 false false).
-    assert (G : forall u, getth (set_runq (setth st k th) (s_runq st ++ [k])) u = if Nat.eqb u k then th else getth st u).
-    { intros u. change (getth (set_runq (setth st k th) (s_runq st ++ [k])) u) with (getth (setth st k th) u).
+    match goal with |- WF ?x => set (st3 := x) end.
+    assert (G : forall u, getth st3 u = if Nat.eqb u k then th else getth st u).
+    { intros u. change (getth st3 u) with (getth (setth st k th) u).
       destruct (Nat.eqb_spec u k) as [->|]; [apply getth_setth_same; auto|apply getth_setth_other; auto]. }
+    assert (R3 : s_runq st3 = s_runq st ++ [k]) by reflexivity.
+    assert (H3 : s_sleepq st3 = s_sleepq st) by reflexivity.
+    assert (Q3 : forall q, wq_get st3 q = wq_get st q) by reflexivity.
+    assert (I3 : idler_tid st3 = idler_tid st).
+    { apply idler_tid_nthreads. change (nthreads st3) with (nthreads (setth st k th)). apply nthreads_setth. }
+    assert (B3 : s_standby st3 = s_standby st) by reflexivity.
+    assert (N3 : s_now st3 = s_now st) by reflexivity.
+    assert (C3 : s_clock st3 = s_clock st) by reflexivity.
+    clearbody st3.
     assert (Hnr : ~ In k (s_runq st)).
     { intros Hin. apply (wf_runq _ W) in Hin. destruct Hin; congruence. }
     assert (Hnh : ~ In k (hq (s_sleepq st))).
     { intros Hin. apply (wf_sleep _ W) in Hin. congruence. }
-    constructor; stsimpl.
-    - apply NoDup_app_single; auto. apply W.
-    - intros u. rewrite in_app_iff, G. intros [Hu|[<-|[]]].
+    constructor.
+    - rewrite R3. apply NoDup_app_single; auto. apply W.
+    - intros u. rewrite R3, in_app_iff, G. intros [Hu|[<-|[]]].
       + destruct (Nat.eqb_spec u k) as [->|]; [tauto|]. apply W; auto.
       + rewrite Nat.eqb_refl. split; discriminate.
-    - rewrite in_app_iff. left.
-      change (idler_tid (set_runq (setth st k th) (s_runq st ++ [k]))) with (idler_tid (setth st k th)).
-      rewrite (idler_tid_nthreads (setth st k th) st (nthreads_setth _ _ _ _)). apply W.
-    - eapply Inv_ts_ext; [apply W|]. intros u Hu. unfold ts_of. rewrite G.
+    - rewrite R3, I3, in_app_iff. left. apply W.
+    - rewrite H3. eapply Inv_ts_ext; [apply W|]. intros u Hu. unfold ts_of. rewrite G.
       destruct (Nat.eqb_spec u k) as [->|]; tauto.
-    - intros u. rewrite G. destruct (Nat.eqb_spec u k) as [->|]; [|apply W].
+    - intros u. rewrite H3, G. destruct (Nat.eqb_spec u k) as [->|]; [|apply W].
       split; [tauto|discriminate].
-    - apply W.
-    - intros q u Hu. change (wq_get (set_runq (setth st k th) (s_runq st ++ [k])) q) with (wq_get st q) in Hu.
-      rewrite G. destruct (Nat.eqb_spec u k) as [->|]; [|apply W; auto].
+    - rewrite B3. apply W.
+    - intros q u. rewrite Q3, G. intros Hu. destruct (Nat.eqb_spec u k) as [->|]; [|apply W; auto].
       apply (wf_wq_in _ W) in Hu. destruct Hu; congruence.
-    - intros u q. change (wq_get (set_runq (setth st k th) (s_runq st ++ [k])) q) with (wq_get st q).
-      rewrite G. destruct (Nat.eqb_spec u k) as [->|]; [discriminate|apply W].
-    - intros q. apply W.
-    - apply W.
+    - intros u q. rewrite Q3, G. destruct (Nat.eqb_spec u k) as [->|]; [discriminate|apply W].
+    - intros q. rewrite Q3. apply W.
+    - rewrite N3, C3. apply W.
+  Qed.
+
+  (* ---- a generic "nobody falls asleep or wakes up" lemma -------------------------------------
+     st' differs from st only in th_state of threads that are awake before and after (and in
+     fields WF ignores), in the run queue, and in the clock *)
+  Lemma WF_restate st st' :
+    WF st ->
+    (forall u, th_ts (getth st' u) = th_ts (getth st u) /\ th_waitq (getth st' u) = th_waitq (getth st u)) ->
+    (forall u, th_state (getth st' u) = SLEEPING <-> th_state (getth st u) = SLEEPING) ->
+    s_sleepq st' = s_sleepq st -> s_standby st' = s_standby st -> s_waitqs st' = s_waitqs st ->
+    nthreads st' = nthreads st -> s_now st' <= s_clock st' ->
+    NoDup (s_runq st') -> (forall u, In u (s_runq st') -> ring_ok (th_state (getth st' u))) ->
+    In (idler_tid st) (s_runq st') -> WF st'.
+  Proof.
+    intros W Hf Hsl Hq Hb Hw Hn Hc Hnd Hro Hid.
+    assert (Hwq : forall q, wq_get st' q = wq_get st q) by (intros; unfold wq_get; rewrite Hw; auto).
+    constructor.
+    - auto.
+    - auto.
+    - rewrite (idler_tid_nthreads _ _ Hn). auto.
+    - rewrite Hq. eapply Inv_ts_ext; [apply W|]. intros u _. unfold ts_of. apply Hf.
+    - intros u. rewrite Hq, Hsl. apply W.
+    - rewrite Hb. apply W.
+    - intros q u. rewrite Hwq. intros Hu. apply (wf_wq_in _ W) in Hu. destruct Hu as (A & B).
+      split; [apply Hsl; auto|]. destruct (Hf u) as (_ & ->). auto.
+    - intros u q. rewrite Hwq. destruct (Hf u) as (_ & ->). apply W.
+    - intros q. rewrite Hwq. apply W.
+    - auto.
+  Qed.
+
+  Lemma WF_update_now st : WF st -> WF (update_now st).
+  Proof.
+    intros W. apply (WF_restate st); auto; try reflexivity; try apply W.
+  Qed.
+
+  Lemma In_idler_tail st from rest :
+    WF st -> s_runq st = from :: rest -> from <> idler_tid st -> In (idler_tid st) rest.
+  Proof.
+    intros W Hr Hne. pose proof (wf_idler _ W) as Hi. rewrite Hr in Hi. destruct Hi; congruence.
+  Qed.
+
+  (* ---- yield ------------------------------------------------------------------------------- *)
+  Lemma getth_do_yield st from to rest u :
+    s_runq st = from :: to :: rest -> from <> to -> (from < nthreads st)%nat -> (to < nthreads st)%nat ->
+    getth (do_yield st) u =
+    if Nat.eqb u to then set_tstate (getth st to) RUNNING
+    else if Nat.eqb u from then set_tstate (set_terr (getth st from) 0) READY else getth st u.
+  Proof.
+    intros Hr Hne Hf Ht. unfold do_yield. rewrite Hr.
+    change (getth (set_runq ?x ?y) u) with (getth x u).
+    rewrite getth_modth, nthreads_modth. change (nthreads (update_now st)) with (nthreads st).
+    destruct (Nat.eqb_spec u to) as [->|Hu]; simpl.
+    - destruct (Nat.ltb_spec to (nthreads st)); [|lia].
+      rewrite getth_modth_other by auto. reflexivity.
+    - rewrite getth_modth. change (nthreads (update_now st)) with (nthreads st).
+      destruct (Nat.eqb_spec u from) as [->|]; simpl; auto.
+      destruct (Nat.ltb_spec from (nthreads st)); [|lia]. reflexivity.
+  Qed.
+
+  Lemma WF_do_yield st from to rest :
+    WF st -> s_runq st = from :: to :: rest -> WF (do_yield st).
+  Proof.
+    intros W Hr.
+    pose proof (wf_nodup _ W) as Hnd. rewrite Hr in Hnd.
+    assert (Hne : from <> to) by (inversion Hnd as [|? ? Hx _]; subst; intros ->; apply Hx; left; auto).
+    assert (Hf : (from < nthreads st)%nat) by (apply ring_in_range; auto; rewrite Hr; simpl; auto).
+    assert (Ht : (to < nthreads st)%nat) by (apply ring_in_range; auto; rewrite Hr; simpl; auto).
+    assert (Hfs : th_state (getth st from) <> SLEEPING) by (apply (wf_runq _ W); rewrite Hr; simpl; auto).
+    assert (Hts : th_state (getth st to) <> SLEEPING) by (apply (wf_runq _ W); rewrite Hr; simpl; auto).
+    pose proof (fun u => getth_do_yield st from to rest u Hr Hne Hf Ht) as G.
+    assert (R : s_runq (do_yield st) = to :: rest ++ [from]) by (unfold do_yield; rewrite Hr; reflexivity).
+    apply (WF_restate st); auto.
+    - intros u. rewrite G. destruct (Nat.eqb_spec u to) as [->|]; [split; reflexivity|].
+      destruct (Nat.eqb_spec u from) as [->|]; split; reflexivity.
+    - intros u. rewrite G. destruct (Nat.eqb_spec u to) as [->|]; thsimpl; [split; [discriminate|tauto]|].
+      destruct (Nat.eqb_spec u from) as [->|]; thsimpl; [split; [discriminate|tauto]|tauto].
+    - unfold do_yield; rewrite Hr; reflexivity.
+    - unfold do_yield; rewrite Hr; reflexivity.
+    - unfold do_yield; rewrite Hr; reflexivity.
+    - unfold do_yield; rewrite Hr. cbv zeta. change (nthreads (set_runq ?a ?b)) with (nthreads a).
+      rewrite !nthreads_modth. reflexivity.
+    - unfold do_yield; rewrite Hr. simpl. lia.
+    - rewrite R. inversion Hnd as [|? ? Hx Hy]; subst.
+      change (to :: rest ++ [from]) with ((to :: rest) ++ [from]). apply NoDup_app_single; auto.
+    - intros u. rewrite R, G. intros Hu.
+      destruct (Nat.eqb_spec u to) as [->|]; thsimpl; [split; discriminate|].
+      destruct (Nat.eqb_spec u from) as [->|]; thsimpl; [split; discriminate|].
+      apply W. rewrite Hr. simpl in Hu. destruct Hu as [?|Hu]; [congruence|].
+      rewrite in_app_iff in Hu. simpl in *. destruct Hu as [?|[?|[]]]; auto; congruence.
+    - rewrite R. pose proof (wf_idler _ W) as Hi. rewrite Hr in Hi.
+      simpl in *. rewrite in_app_iff. simpl. destruct Hi as [?|[?|?]]; auto.
+  Qed.
+
+  (* ---- yield_to ---------------------------------------------------------------------------- *)
+  Lemma getth_do_yield_to st from rest k u :
+    s_runq st = from :: rest -> from <> k -> (from < nthreads st)%nat -> (k < nthreads st)%nat ->
+    getth (do_yield_to st k) u =
+    if Nat.eqb u k then set_tstate (getth st k) RUNNING
+    else if Nat.eqb u from then set_tstate (set_terr (getth st from) 0) READY else getth st u.
+  Proof.
+    intros Hr Hne Hf Ht. unfold do_yield_to. rewrite Hr.
+    change (getth (set_runq ?x ?y) u) with (getth x u).
+    rewrite getth_modth, nthreads_modth. change (nthreads (update_now st)) with (nthreads st).
+    destruct (Nat.eqb_spec u k) as [->|Hu]; simpl.
+    - destruct (Nat.ltb_spec k (nthreads st)); [|lia].
+      rewrite getth_modth_other by auto. reflexivity.
+    - rewrite getth_modth. change (nthreads (update_now st)) with (nthreads st).
+      destruct (Nat.eqb_spec u from) as [->|]; simpl; auto.
+      destruct (Nat.ltb_spec from (nthreads st)); [|lia]. reflexivity.
+  Qed.
+
+  Lemma WF_do_yield_to st from rest k :
+    WF st -> s_runq st = from :: rest -> from <> k -> th_state (getth st k) = READY -> WF (do_yield_to st k).
+  Proof.
+    intros W Hr Hne Hk.
+    pose proof (wf_nodup _ W) as Hnd. rewrite Hr in Hnd. inversion Hnd as [|? ? Hx Hy]; subst.
+    assert (Hf : (from < nthreads st)%nat) by (apply ring_in_range; auto; rewrite Hr; simpl; auto).
+    assert (Ht : (k < nthreads st)%nat).
+    { destruct (Nat.ltb_spec k (nthreads st)); auto. rewrite getth_out in Hk by auto. discriminate. }
+    assert (Hfs : th_state (getth st from) <> SLEEPING) by (apply (wf_runq _ W); rewrite Hr; simpl; auto).
+    pose proof (fun u => getth_do_yield_to st from rest k u Hr Hne Hf Ht) as G.
+    assert (R : s_runq (do_yield_to st k) = k :: from :: remove_tid k rest) by (unfold do_yield_to; rewrite Hr; reflexivity).
+    apply (WF_restate st); auto.
+    - intros u. rewrite G. destruct (Nat.eqb_spec u k) as [->|]; [split; reflexivity|].
+      destruct (Nat.eqb_spec u from) as [->|]; split; reflexivity.
+    - intros u. rewrite G. destruct (Nat.eqb_spec u k) as [->|]; thsimpl; [split; [discriminate|congruence]|].
+      destruct (Nat.eqb_spec u from) as [->|]; thsimpl; [split; [discriminate|tauto]|tauto].
+    - unfold do_yield_to; rewrite Hr; reflexivity.
+    - unfold do_yield_to; rewrite Hr; reflexivity.
+    - unfold do_yield_to; rewrite Hr; reflexivity.
+    - unfold do_yield_to; rewrite Hr. cbv zeta. change (nthreads (set_runq ?a ?b)) with (nthreads a).
+      rewrite !nthreads_modth. reflexivity.
+    - unfold do_yield_to; rewrite Hr. simpl. lia.
+    - rewrite R. constructor.
+      + simpl. intros [?|Hin]; [congruence|]. apply In_remove_tid in Hin; auto. tauto.
+      + constructor.
+        * intros Hin. apply In_remove_tid_weak in Hin. auto.
+        * apply NoDup_remove_tid; auto.
+    - intros u. rewrite R, G. intros Hu.
+      destruct (Nat.eqb_spec u k) as [->|]; thsimpl; [split; discriminate|].
+      destruct (Nat.eqb_spec u from) as [->|]; thsimpl; [split; discriminate|].
+      apply W. rewrite Hr. simpl in Hu. destruct Hu as [?|[?|Hu]]; try congruence.
+      right. eapply In_remove_tid_weak; eauto.
+    - rewrite R. pose proof (wf_idler _ W) as Hi. rewrite Hr in Hi.
+      destruct (Nat.eq_dec (idler_tid st) k) as [->|Hik]; [left; auto|].
+      right. destruct Hi as [?|Hi]; [left; auto|right]. apply In_remove_tid; auto.
+  Qed.
+
+  (* ---- remove_current to a non-sleeping state (die) ---------------------------------------- *)
+  Lemma getth_remove_current st from to rest ns u :
+    s_runq st = from :: to :: rest -> from <> to -> (from < nthreads st)%nat -> (to < nthreads st)%nat ->
+    getth (remove_current st ns) u =
+    if Nat.eqb u to then set_tstate (getth st to) RUNNING
+    else if Nat.eqb u from then set_tstate (getth st from) ns else getth st u.
+  Proof.
+    intros Hr Hne Hf Ht. unfold remove_current. rewrite Hr.
+    change (getth (set_runq ?x ?y) u) with (getth x u).
+    rewrite getth_modth, nthreads_modth.
+    destruct (Nat.eqb_spec u to) as [->|Hu]; simpl.
+    - destruct (Nat.ltb_spec to (nthreads st)); [|lia].
+      rewrite getth_modth_other by auto. reflexivity.
+    - rewrite getth_modth.
+      destruct (Nat.eqb_spec u from) as [->|]; simpl; auto.
+      destruct (Nat.ltb_spec from (nthreads st)); [|lia]. reflexivity.
+  Qed.
+
+  Lemma remove_current_frame st from to rest ns :
+    s_runq st = from :: to :: rest ->
+    let st' := remove_current st ns in
+    s_runq st' = to :: rest /\ s_sleepq st' = s_sleepq st /\ s_standby st' = s_standby st /\
+    s_waitqs st' = s_waitqs st /\ s_now st' = s_now st /\ s_clock st' = s_clock st /\
+    nthreads st' = nthreads st /\ s_trace st' = s_trace st.
+  Proof.
+    intros Hr. unfold remove_current. rewrite Hr. cbv zeta. repeat split; try reflexivity.
+    change (nthreads (set_runq ?a ?b)) with (nthreads a). rewrite !nthreads_modth. reflexivity.
+  Qed.
+
+  Lemma WF_remove_current st from to rest ns :
+    WF st -> s_runq st = from :: to :: rest -> from <> idler_tid st -> ns <> SLEEPING ->
+    WF (remove_current st ns).
+  Proof.
+    intros W Hr Hid Hns.
+    pose proof (wf_nodup _ W) as Hnd. rewrite Hr in Hnd.
+    assert (Hne : from <> to) by (inversion Hnd as [|? ? Hx _]; subst; intros ->; apply Hx; left; auto).
+    assert (Hf : (from < nthreads st)%nat) by (apply ring_in_range; auto; rewrite Hr; simpl; auto).
+    assert (Ht : (to < nthreads st)%nat) by (apply ring_in_range; auto; rewrite Hr; simpl; auto).
+    assert (Hfs : th_state (getth st from) <> SLEEPING) by (apply (wf_runq _ W); rewrite Hr; simpl; auto).
+    assert (Hts : th_state (getth st to) <> SLEEPING) by (apply (wf_runq _ W); rewrite Hr; simpl; auto).
+    pose proof (fun u => getth_remove_current st from to rest ns u Hr Hne Hf Ht) as G.
+    destruct (remove_current_frame st from to rest ns Hr) as (R&F2&F3&F4&F5&F6&F7&F8).
+    apply (WF_restate st); auto.
+    - intros u. rewrite G. destruct (Nat.eqb_spec u to) as [->|]; [split; reflexivity|].
+      destruct (Nat.eqb_spec u from) as [->|]; split; reflexivity.
+    - intros u. rewrite G. destruct (Nat.eqb_spec u to) as [->|]; thsimpl; [split; [discriminate|tauto]|].
+      destruct (Nat.eqb_spec u from) as [->|]; thsimpl; [split; [congruence|tauto]|tauto].
+    - rewrite F5, F6. apply W.
+    - rewrite R. inversion Hnd; auto.
+    - intros u. rewrite R, G. intros Hu.
+      destruct (Nat.eqb_spec u to) as [->|]; thsimpl; [split; discriminate|].
+      destruct (Nat.eqb_spec u from) as [->|].
+      + exfalso. inversion Hnd as [|? ? Hx _]; subst. apply Hx. auto.
+      + apply W. rewrite Hr. right; auto.
+    - rewrite R. eapply In_idler_tail; eauto.
+  Qed.
+
+  Lemma WF_modth_awake st t f ns :
+    WF st -> th_state (getth st t) <> SLEEPING -> ns <> SLEEPING -> (In t (s_runq st) -> ring_ok ns) ->
+    (forall th, th_state (f th) = ns /\ th_ts (f th) = th_ts th /\ th_waitq (f th) = th_waitq th) ->
+    WF (modth st t f).
+  Proof.
+    intros W Hs Hns Hro Hf.
+    apply (WF_restate st); auto; try reflexivity; try apply W.
+    - intros u. rewrite getth_modth. destruct (Nat.eqb u t && Nat.ltb t (nthreads st)) eqn:E; [|split; reflexivity].
+      apply andb_true_iff in E. destruct E as (E & _). apply Nat.eqb_eq in E. subst. split; apply Hf.
+    - intros u. rewrite getth_modth. destruct (Nat.eqb u t && Nat.ltb t (nthreads st)) eqn:E; [|tauto].
+      apply andb_true_iff in E. destruct E as (E & _). apply Nat.eqb_eq in E. subst.
+      destruct (Hf (getth st t)) as (-> & _). tauto.
+    - apply nthreads_modth.
+    - intros u Hu. change (s_runq (modth st t f)) with (s_runq st) in Hu. rewrite getth_modth.
+      destruct (Nat.eqb u t && Nat.ltb t (nthreads st)) eqn:E; [|apply W; auto].
+      apply andb_true_iff in E. destruct E as (E & _). apply Nat.eqb_eq in E. subst.
+      destruct (Hf (getth st t)) as (-> & _). auto.
+  Qed.
+
+  Lemma WF_do_die st t rv rest :
+    WF st -> s_runq st = t :: rest -> t <> idler_tid st -> WF (do_die st t rv).
+  Proof.
+    intros W Hr Hid. unfold do_die.
+    assert (Hts : th_state (getth st t) <> SLEEPING) by (apply (wf_runq _ W); rewrite Hr; simpl; auto).
+    set (st1 := modth st t (fun th => set_tretval (set_tstate th DONE) rv)).
+    assert (W1 : WF st1).
+    { apply (WF_modth_awake st t _ DONE); auto; try discriminate.
+      all: try (intros _; split; discriminate).
+      all: try (intros th; repeat split; reflexivity). }
+    assert (I1 : idler_tid st1 = idler_tid st) by (apply idler_tid_nthreads, nthreads_modth).
+    assert (R1 : s_runq st1 = t :: rest) by exact Hr.
+    clearbody st1.
+    pose proof (WF_waitq_resume_one st1 (QJoin t) (-1) W1) as W2.
+    set (st2 := fst (waitq_resume_one st1 (QJoin t) (-1))) in *.
+    assert (R2 : exists l, s_runq st2 = t :: rest ++ l).
+    { unfold st2, waitq_resume_one. destruct (wq_get st1 (QJoin t)) as [|h r]; cbn [fst].
+      - exists []. rewrite app_nil_r. auto.
+      - exists [h]. destruct (prelocked_interrupt_frame st1 h (-1)) as (F1&_). rewrite F1, R1. reflexivity. }
+    assert (I2 : idler_tid st2 = idler_tid st).
+    { rewrite <- I1. apply idler_tid_nthreads. unfold st2, waitq_resume_one.
+      destruct (wq_get st1 (QJoin t)) as [|h r]; cbn [fst]; auto.
+      destruct (prelocked_interrupt_frame st1 h (-1)) as (_&F2&_). exact F2. }
+    clearbody st2. destruct R2 as (l & R2).
+    pose proof (wf_idler _ W2) as Hi. rewrite R2, I2 in Hi.
+    destruct Hi as [?|Hi]; [congruence|].
+    destruct (rest ++ l) as [|to rest'] eqn:El; [destruct Hi|].
+    eapply WF_remove_current; eauto; try discriminate. congruence.
+  Qed.
+
+  (* ---- going to sleep ------------------------------------------------------------------------ *)
+  Definition sleep_waitq (old : option qid) (wq : option qid) : option qid :=
+    match wq with Some q => Some q | None => old end.
+
+  Lemma do_sleep_spec st from to rest exp wq :
+    WF st -> s_runq st = from :: to :: rest ->
+    let st' := do_sleep st exp wq in
+    (forall u, th_state (getth st' u) =
+               if Nat.eqb u to then RUNNING else if Nat.eqb u from then SLEEPING else th_state (getth st u)) /\
+    (forall u, th_ts (getth st' u) = if Nat.eqb u from then exp else th_ts (getth st u)) /\
+    (forall u, th_waitq (getth st' u) =
+               if Nat.eqb u from then sleep_waitq (th_waitq (getth st from)) wq else th_waitq (getth st u)) /\
+    (forall u, u <> from -> u <> to -> getth st' u = getth st u) /\
+    (forall q, wq_get st' q = match wq with
+                              | Some q0 => if qid_eqb q0 q then wq_get st q ++ [from] else wq_get st q
+                              | None => wq_get st q end) /\
+    s_runq st' = to :: rest /\
+    (exists ts', (forall u, ts' u = if Nat.eqb u from then exp else th_ts (getth st u)) /\
+                 s_sleepq st' = push ts' (s_sleepq st) from) /\
+    s_standby st' = s_standby st /\ s_now st' = s_clock st /\ s_clock st' = s_clock st /\
+    nthreads st' = nthreads st /\ s_trace st' = s_trace st /\ s_user st' = s_user st /\
+    s_end st' = s_end st /\ s_stuck st' = s_stuck st /\
+    (forall (p : thread -> Z), (forall th s, p (set_tstate th s) = p th) -> (forall th q, p (set_twaitq th q) = p th) ->
+        (forall th x, p (set_tts th x) = p th) -> forall u, p (getth st' u) = p (getth st u)).
+  Proof.
+    intros W Hr.
+    pose proof (wf_nodup _ W) as Hnd. rewrite Hr in Hnd.
+    assert (Hne : from <> to) by (inversion Hnd as [|? ? Hx _]; subst; intros ->; apply Hx; left; auto).
+    assert (Hf : (from < nthreads st)%nat) by (apply ring_in_range; auto; rewrite Hr; simpl; auto).
+    assert (Ht : (to < nthreads st)%nat) by (apply ring_in_range; auto; rewrite Hr; simpl; auto).
+    unfold do_sleep. rewrite Hr. cbv zeta.
+    pose proof (fun u => getth_remove_current st from to rest SLEEPING u Hr Hne Hf Ht) as G1.
+    destruct (remove_current_frame st from to rest SLEEPING Hr) as (R1&F2&F3&F4&F5&F6&F7&F8).
+    assert (Hu1 : s_user (remove_current st SLEEPING) = s_user st) by (unfold remove_current; rewrite Hr; reflexivity).
+    assert (He1 : s_end (remove_current st SLEEPING) = s_end st) by (unfold remove_current; rewrite Hr; reflexivity).
+    assert (Hk1 : s_stuck (remove_current st SLEEPING) = s_stuck st) by (unfold remove_current; rewrite Hr; reflexivity).
+    set (st1 := remove_current st SLEEPING) in *.
+    set (st2 := match wq with
+                | Some q => modth (wq_set st1 q (wq_get st1 q ++ [from])) from (fun th => set_twaitq th (Some q))
+                | None => st1 end).
+    assert (G2 : forall u, getth st2 u = if Nat.eqb u from then
+                    match wq with Some q => set_twaitq (getth st1 from) (Some q) | None => getth st1 from end
+                    else getth st1 u).
+    { intros u. unfold st2. destruct wq as [q|].
+      - rewrite getth_modth. change (nthreads (wq_set st1 q (wq_get st1 q ++ [from]))) with (nthreads st1).
+        destruct (Nat.eqb_spec u from) as [->|]; simpl; auto.
+        destruct (Nat.ltb_spec from (nthreads st1)); [reflexivity|lia].
+      - destruct (Nat.eqb_spec u from) as [->|]; auto. }
+    assert (N2 : nthreads st2 = nthreads st).
+    { unfold st2. destruct wq; [rewrite nthreads_modth|]; exact F7. }
+    assert (Q2 : forall q, wq_get st2 q = match wq with
+                              | Some q0 => if qid_eqb q0 q then wq_get st q ++ [from] else wq_get st q
+                              | None => wq_get st q end).
+    { intros q. assert (Hq1 : forall q, wq_get st1 q = wq_get st q) by (intros; unfold wq_get; rewrite F4; auto).
+      unfold st2. destruct wq as [q0|]; [|apply Hq1].
+      change (wq_get (modth (wq_set st1 q0 (wq_get st1 q0 ++ [from])) from (fun th => set_twaitq th (Some q0))) q)
+        with (wq_get (wq_set st1 q0 (wq_get st1 q0 ++ [from])) q).
+      destruct (qid_eqb_spec q0 q) as [->|].
+      - rewrite wq_get_set_same, Hq1. reflexivity.
+      - rewrite wq_get_set_other, Hq1 by auto. reflexivity. }
+    assert (C2 : s_runq st2 = to :: rest /\ s_sleepq st2 = s_sleepq st /\ s_standby st2 = s_standby st /\
+                 s_clock st2 = s_clock st /\ s_trace st2 = s_trace st /\ s_user st2 = s_user st /\
+                 s_end st2 = s_end st /\ s_stuck st2 = s_stuck st).
+    { unfold st2. destruct wq; repeat split; assumption. }
+    destruct C2 as (R2&S2&B2&C2&T2&U2&E2&K2).
+    clearbody st2.
+    set (st4 := modth (update_now st2) from (fun th => set_tts th exp)).
+    assert (G4 : forall u, getth st4 u = if Nat.eqb u from then set_tts (getth st2 from) exp else getth st2 u).
+    { intros u. unfold st4. rewrite getth_modth. change (nthreads (update_now st2)) with (nthreads st2).
+      destruct (Nat.eqb_spec u from) as [->|]; simpl; auto.
+      destruct (Nat.ltb_spec from (nthreads st2)); [reflexivity|lia]. }
+    match goal with |- context [set_sleepq st4 ?h] => set (hh := h) end.
+    assert (G5 : forall u, getth (set_sleepq st4 hh) u = getth st4 u) by reflexivity.
+    assert (Hneb : Nat.eqb from to = false) by (apply Nat.eqb_neq; auto).
+    split; [|split; [|split; [|split; [|split; [|split; [|split]]]]]].
+    - intros u. rewrite G5, G4, !G2, !G1, Nat.eqb_refl, ?Hneb.
+      destruct (Nat.eqb_spec u from) as [->|].
+      + rewrite ?Hneb. destruct wq; reflexivity.
+      + destruct (Nat.eqb_spec u to) as [->|]; reflexivity.
+    - intros u. rewrite G5, G4, !G2, !G1, Nat.eqb_refl, ?Hneb.
+      destruct (Nat.eqb_spec u from) as [->|]; [reflexivity|].
+      destruct (Nat.eqb_spec u to) as [->|]; reflexivity.
+    - intros u. rewrite G5, G4, !G2, !G1, Nat.eqb_refl, ?Hneb.
+      destruct (Nat.eqb_spec u from) as [->|].
+      + rewrite ?Hneb. destruct wq; reflexivity.
+      + destruct (Nat.eqb_spec u to) as [->|]; reflexivity.
+    - intros u H1 H2. rewrite G5, G4, !G2, !G1, Nat.eqb_refl, ?Hneb.
+      destruct (Nat.eqb_spec u from); [congruence|]. destruct (Nat.eqb_spec u to); [congruence|]. reflexivity.
+    - intros q. change (wq_get (set_sleepq st4 hh) q) with (wq_get st2 q). apply Q2.
+    - exact R2.
+    - exists (ts_of st4). split.
+      + intros u. unfold ts_of. rewrite G4, !G2, !G1, Nat.eqb_refl, ?Hneb.
+        destruct (Nat.eqb_spec u from) as [->|]; [reflexivity|].
+        destruct (Nat.eqb_spec u to) as [->|]; reflexivity.
+      + unfold hh. change (s_sleepq st4) with (s_sleepq st2). rewrite S2. reflexivity.
+    - repeat split; try assumption.
+      + change (nthreads (set_sleepq st4 hh)) with (nthreads st4). unfold st4. rewrite nthreads_modth. exact N2.
+      + intros p P1 P2 P3 u. rewrite G5, G4, !G2, !G1, Nat.eqb_refl, ?Hneb.
+        destruct (Nat.eqb_spec u from) as [->|].
+        * rewrite P3, ?Hneb. destruct wq; rewrite ?P2, ?P1; reflexivity.
+        * destruct (Nat.eqb_spec u to) as [->|]; rewrite ?P1; reflexivity.
+  Qed.
+
+  Lemma WF_do_sleep st from to rest exp wq :
+    WF st -> s_runq st = from :: to :: rest -> from <> idler_tid st ->
+    th_waitq (getth st from) = None -> WF (do_sleep st exp wq).
+  Proof.
+    intros W Hr Hid Hwq.
+    destruct (do_sleep_spec st from to rest exp wq W Hr) as (Gs&Gt&Gw&Go&Q&R&(ts'&Hts'&Hh)&B&N&C&L&_).
+    set (st' := do_sleep st exp wq) in *. clearbody st'.
+    pose proof (wf_nodup _ W) as Hnd. rewrite Hr in Hnd.
+    assert (Hne : from <> to) by (inversion Hnd as [|? ? Hx _]; subst; intros ->; apply Hx; left; auto).
+    assert (Hfs : th_state (getth st from) <> SLEEPING) by (apply (wf_runq _ W); rewrite Hr; simpl; auto).
+    assert (Htos : th_state (getth st to) <> SLEEPING) by (apply (wf_runq _ W); rewrite Hr; simpl; auto).
+    assert (Hfh : ~ In from (hq (s_sleepq st))) by (apply ring_not_in_heap; auto; rewrite Hr; simpl; auto).
+    assert (HI : Inv ts' (s_sleepq st)).
+    { eapply Inv_ts_ext; [apply W|]. intros u Hu. rewrite Hts'. unfold ts_of.
+      destruct (Nat.eqb_spec u from); [congruence|reflexivity]. }
+    assert (Hidx : hidx (s_sleepq st) from = -1) by (destruct (wf_heap _ W) as (_&_&_&X&_); apply X; auto).
+    pose proof (push_Inv ts' _ from HI Hidx) as HI'.
+    pose proof (push_perm ts' _ from HI Hidx) as Hp.
+    assert (Hmem : forall u, In u (hq (s_sleepq st')) <-> u = from \/ In u (hq (s_sleepq st))).
+    { intros u. rewrite Hh. split.
+      - intros Hu. eapply Permutation_in in Hu; [|exact Hp]. destruct Hu; auto.
+      - intros Hu. eapply Permutation_in; [apply Permutation_sym; exact Hp|]. destruct Hu; [left|right]; auto. }
+    constructor.
+    - rewrite R. inversion Hnd; auto.
+    - intros u. rewrite R, Gs. intros Hu.
+      destruct (Nat.eqb_spec u to); [split; discriminate|].
+      destruct (Nat.eqb_spec u from) as [->|].
+      + exfalso. inversion Hnd as [|? ? Hx _]; subst. auto.
+      + apply W. rewrite Hr. right; auto.
+    - rewrite R, (idler_tid_nthreads _ _ L). eapply In_idler_tail; eauto.
+    - rewrite Hh. eapply Inv_ts_ext; [exact HI'|]. intros u _. unfold ts_of. rewrite Gt, Hts'. reflexivity.
+    - intros u. rewrite Hmem, Gs, (wf_sleep _ W).
+      destruct (Nat.eqb_spec u to) as [->|].
+      + split; [intros [?|?]; congruence|discriminate].
+      + destruct (Nat.eqb_spec u from) as [->|]; [tauto|]. split; [intros [?|?]; congruence|auto].
+    - rewrite B. apply W.
+    - intros q u. rewrite Q, Gs, Gw. intros Hu.
+      assert (Hcase : (u = from /\ wq = Some q) \/ In u (wq_get st q)).
+      { destruct wq as [q0|]; auto. destruct (qid_eqb_spec q0 q) as [->|]; auto.
+        rewrite in_app_iff in Hu. simpl in Hu. destruct Hu as [?|[<-|[]]]; auto. }
+      destruct Hcase as [(-> & ->)|Hin].
+      + rewrite Nat.eqb_refl. destruct (Nat.eqb_spec from to); [congruence|]. split; reflexivity.
+      + destruct (wf_wq_in _ W _ _ Hin) as (A & B').
+        destruct (Nat.eqb_spec u to) as [->|]; [congruence|].
+        destruct (Nat.eqb_spec u from) as [->|]; [congruence|]. auto.
+    - intros u q. rewrite Q, Gw.
+      destruct (Nat.eqb_spec u from) as [->|].
+      + rewrite Hwq. unfold sleep_waitq. destruct wq as [q0|]; [|discriminate].
+        intros [= ->]. destruct (qid_eqb_spec q q); [|congruence]. rewrite in_app_iff. right; left; auto.
+      + intros Hq. pose proof (wf_wq_of _ W _ _ Hq) as Hin.
+        destruct wq as [q0|]; auto. destruct (qid_eqb q0 q); auto. rewrite in_app_iff; auto.
+    - intros q. rewrite Q. destruct wq as [q0|]; [|apply W].
+      destruct (qid_eqb q0 q); [|apply W]. apply NoDup_app_single; [apply W|].
+      apply not_sleeping_no_queue; auto.
+    - rewrite N, C. lia.
+  Qed.
+
+  (* ---- the timer wake-up: resume_threads_inlined ---------------------------------------------- *)
+  Definition wake_timer st (t : tid) : state U :=
+    dequeue_ready (set_sleepq st (fst (pop_front (ts_of st) (s_sleepq st)))) t READY.
+
+  Record frame_eq st st' : Prop := mkFrame {
+    fr_now : s_now st' = s_now st; fr_clock : s_clock st' = s_clock st; fr_trace : s_trace st' = s_trace st;
+    fr_n : nthreads st' = nthreads st; fr_standby : s_standby st' = s_standby st; fr_user : s_user st' = s_user st;
+    fr_end : s_end st' = s_end st; fr_stuck : s_stuck st' = s_stuck st
+  }.
+  Lemma frame_eq_refl st : frame_eq st st.
+  Proof. constructor; reflexivity. Qed.
+  Lemma frame_eq_trans a b c : frame_eq a b -> frame_eq b c -> frame_eq a c.
+  Proof. intros [] []; constructor; congruence. Qed.
+
+  Lemma wake_timer_spec st t :
+    WF st -> front (s_sleepq st) = Some t ->
+    let st' := wake_timer st t in
+    WF st' /\ s_runq st' = s_runq st /\ th_state (getth st t) = SLEEPING /\
+    getth st' t = set_tstate (set_twaitq (getth st t) None) READY /\
+    (forall u, u <> t -> getth st' u = getth st u) /\
+    (forall u, In u (hq (s_sleepq st')) <-> In u (hq (s_sleepq st)) /\ u <> t) /\
+    frame_eq st st'.
+  Proof.
+    intros W Hfr. cbv zeta.
+    assert (Hne : hq (s_sleepq st) <> []) by (unfold front in Hfr; destruct (hq (s_sleepq st)); discriminate).
+    destruct (pop_front_correct (ts_of st) (s_sleepq st) (wf_heap _ W) Hne) as (h' & t0 & Hpop & Hfr' & Hmin & HI' & Hperm & Hidx).
+    assert (t0 = t) by congruence. subst t0.
+    assert (Hin : In t (hq (s_sleepq st))).
+    { eapply Permutation_in; [apply Permutation_sym; exact Hperm|left; auto]. }
+    assert (Hs : th_state (getth st t) = SLEEPING) by (apply (wf_sleep _ W); auto).
+    pose proof (sleeping_in_range _ _ Hs) as Hr.
+    destruct (perm_nodup_in _ _ _ ltac:(destruct (wf_heap _ W) as (_&_&_&_&X); exact X) Hperm) as (Hmem & _).
+    unfold wake_timer. rewrite Hpop. cbn [fst].
+    set (st1 := set_sleepq st h').
+    destruct (dequeue_ready_frame st1 t READY) as (F1&F2&F3&F4&F5&F6&F7&F8&F9&F10).
+    assert (G : forall u, getth (dequeue_ready st1 t READY) u =
+                          if Nat.eqb u t then set_tstate (set_twaitq (getth st t) None) READY else getth st u).
+    { intros u. rewrite getth_dequeue_ready. change (nthreads st1) with (nthreads st). change (getth st1 ?x) with (getth st x).
+      destruct (Nat.eqb u t); simpl; auto. destruct (Nat.ltb_spec t (nthreads st)); auto; lia. }
+    assert (Q : forall q, wq_get (dequeue_ready st1 t READY) q =
+                if (match th_waitq (getth st t) with Some q0 => qid_eqb q0 q | None => false end)
+                then remove_tid t (wq_get st q) else wq_get st q).
+    { intros q. rewrite wq_get_dequeue_ready. reflexivity. }
+    set (st' := dequeue_ready st1 t READY) in *. clearbody st'.
+    change (s_runq st1) with (s_runq st) in F1. change (s_sleepq st1) with h' in F2.
+    change (s_standby st1) with (s_standby st) in F3. change (s_now st1) with (s_now st) in F4.
+    change (s_clock st1) with (s_clock st) in F5. change (nthreads st1) with (nthreads st) in F6.
+    change (s_trace st1) with (s_trace st) in F7. change (s_user st1) with (s_user st) in F8.
+    change (s_end st1) with (s_end st) in F9. change (s_stuck st1) with (s_stuck st) in F10.
+    clear st1.
+    split; [|split; [exact F1|split; [exact Hs|split; [|split; [|split]]]]].
+    - constructor.
+      + rewrite F1. apply W.
+      + intros u. rewrite F1, G. intros Hu.
+        destruct (Nat.eqb_spec u t) as [->|]; [split; discriminate|]. apply W; auto.
+      + rewrite F1, (idler_tid_nthreads _ _ F6). apply W.
+      + rewrite F2. eapply Inv_ts_ext; [exact HI'|]. intros u _. unfold ts_of. rewrite G.
+        destruct (Nat.eqb_spec u t) as [->|]; reflexivity.
+      + intros u. rewrite F2, Hmem, G, (wf_sleep _ W).
+        destruct (Nat.eqb_spec u t) as [->|Hne']; thsimpl.
+        * split; [intros (_&X); congruence|discriminate].
+        * tauto.
+      + rewrite F3. apply W.
+      + intros q u. rewrite Q, G.
+        destruct (th_waitq (getth st t)) as [q0|] eqn:Eq.
+        * destruct (qid_eqb_spec q0 q) as [->|Hne'].
+          -- rewrite In_remove_tid by apply W. intros (Hu & Hne').
+             destruct (Nat.eqb_spec u t); [congruence|]. apply W; auto.
+          -- intros Hu. destruct (Nat.eqb_spec u t) as [->|]; [|apply W; auto].
+             apply (wf_wq_in _ W) in Hu. destruct Hu as (_ & Hu). congruence.
+        * intros Hu. destruct (Nat.eqb_spec u t) as [->|]; [|apply W; auto].
+          apply (wf_wq_in _ W) in Hu. destruct Hu as (_ & Hu). congruence.
+      + intros u q. rewrite Q, G.
+        destruct (Nat.eqb_spec u t) as [->|Hne']; thsimpl; [discriminate|].
+        intros Hq. pose proof (wf_wq_of _ W _ _ Hq) as Hu.
+        destruct (th_waitq (getth st t)) as [q0|]; auto.
+        destruct (qid_eqb_spec q0 q) as [->|]; auto.
+        rewrite In_remove_tid by apply W. auto.
+      + intros q. rewrite Q.
+        destruct (th_waitq (getth st t)) as [q0|]; [|apply W].
+        destruct (qid_eqb q0 q); [apply NoDup_remove_tid|]; apply W.
+      + rewrite F4, F5. apply W.
+    - rewrite G, Nat.eqb_refl. reflexivity.
+    - intros u Hu. rewrite G. destruct (Nat.eqb_spec u t); [congruence|reflexivity].
+    - intros u. rewrite F2. apply Hmem.
+    - constructor; assumption.
+  Qed.
+
+  Definition resume_post st st' (woken : list tid) : Prop :=
+      WF st' /\ NoDup woken /\ s_runq st' = s_runq st /\
+      (forall u, In u woken -> th_state (getth st u) = SLEEPING /\ th_ts (getth st u) <= s_now st /\
+                               getth st' u = set_tstate (set_twaitq (getth st u) None) READY) /\
+      (forall u, ~ In u woken -> getth st' u = getth st u) /\
+      (forall u, th_state (getth st' u) = SLEEPING -> s_now st < th_ts (getth st' u)) /\
+      frame_eq st st'.
+
+  Lemma resume_post_nil st :
+    WF st -> (forall u, th_state (getth st u) = SLEEPING -> s_now st < th_ts (getth st u)) -> resume_post st st [].
+  Proof.
+    intros W H. unfold resume_post. split; [exact W|]. split; [constructor|]. split; [reflexivity|].
+    split; [intros u []|]. split; [reflexivity|]. split; [exact H|apply frame_eq_refl].
+  Qed.
+
+  Lemma resume_expired_spec : forall fuel st acc,
+    WF st -> (length (hq (s_sleepq st)) <= fuel)%nat ->
+    exists woken,
+      snd (resume_expired fuel st acc) = acc ++ woken /\
+      resume_post st (fst (resume_expired fuel st acc)) woken.
+  Proof.
+    induction fuel as [|f IH]; intros st acc W Hlen.
+    - exists []. simpl. rewrite app_nil_r. split; [reflexivity|]. apply resume_post_nil; auto.
+      intros u Hu. apply (wf_sleep _ W) in Hu. destruct (hq (s_sleepq st)); simpl in *; [tauto|lia].
+    - simpl. destruct (front (s_sleepq st)) as [t|] eqn:Hfr.
+      + destruct (s_now st <? th_ts (getth st t)) eqn:Hlt.
+        * exists []. simpl. rewrite app_nil_r. split; [reflexivity|]. apply resume_post_nil; auto.
+          intros u Hu. apply (wf_sleep _ W) in Hu.
+          pose proof (front_is_min _ _ _ (wf_heap _ W) Hfr u Hu) as Hmin. unfold ts_of in Hmin.
+          apply Z.ltb_lt in Hlt. lia.
+        * destruct (wake_timer_spec st t W Hfr) as (W1 & R1 & Hs & Gt & Go & Hmem & Fr).
+          unfold wake_timer in *.
+          set (st1 := set_sleepq st (fst (pop_front (ts_of st) (s_sleepq st)))) in *.
+          change (getth st1 t) with (getth st t). rewrite Hs. simpl tstate_eqb. cbv iota.
+          set (st2 := dequeue_ready st1 t READY) in *.
+          assert (Hlen2 : (length (hq (s_sleepq st2)) <= f)%nat).
+          { assert (Hnd : NoDup (hq (s_sleepq st))) by (destruct (wf_heap _ W) as (_&_&_&_&X); exact X).
+            assert (Hnd2 : NoDup (hq (s_sleepq st2))) by (destruct (wf_heap _ W1) as (_&_&_&_&X); exact X).
+            assert (Hin : In t (hq (s_sleepq st))) by (apply (wf_sleep _ W); auto).
+            assert (Hl : (length (t :: hq (s_sleepq st2)) <= length (hq (s_sleepq st)))%nat).
+            { apply NoDup_incl_length.
+              - constructor; auto. intros X. apply Hmem in X. tauto.
+              - intros u [<-|Hu]; auto. apply Hmem in Hu. tauto. }
+            cbn [length] in Hl. lia. }
+          destruct (IH st2 (acc ++ [t]) W1 Hlen2) as (wk & Hacc & W' & Hnd & R' & Hw & Ho & Hd & Fr').
+          clearbody st2. clear st1.
+          exists (t :: wk). rewrite Hacc, <- app_assoc. split; [reflexivity|].
+          assert (Htw : ~ In t wk).
+          { intros X. apply Hw in X. destruct X as (X & _). rewrite Gt in X. discriminate. }
+          unfold resume_post.
+          split; [exact W'|]. split; [constructor; auto|]. split; [congruence|].
+          split; [|split; [|split]].
+          -- intros u [<-|Hu].
+             ++ split; [exact Hs|]. split; [apply Z.ltb_ge in Hlt; lia|]. rewrite Ho by auto. exact Gt.
+             ++ destruct (Hw _ Hu) as (X1 & X2 & X3).
+                assert (Hne : u <> t) by (intros ->; tauto).
+                rewrite Go in X1, X2, X3 by auto. rewrite (fr_now _ _ Fr) in X2. auto.
+          -- intros u Hu. simpl in Hu. rewrite Ho by tauto. apply Go. intros ->. apply Hu. left; auto.
+          -- intros u Hu. apply Hd in Hu. rewrite (fr_now _ _ Fr) in Hu. exact Hu.
+          -- eapply frame_eq_trans; eauto.
+      + exists []. simpl. rewrite app_nil_r. split; [reflexivity|]. apply resume_post_nil; auto.
+        intros u Hu. apply (wf_sleep _ W) in Hu. unfold front in Hfr. destruct (hq (s_sleepq st)); [destruct Hu|discriminate].
+  Qed.
+
+  Lemma NoDup_app_disjoint (a b : list tid) :
+    NoDup a -> NoDup b -> (forall u, In u b -> ~ In u a) -> NoDup (a ++ b).
+  Proof.
+    induction a as [|x a IH]; simpl; intros Ha Hb Hd; auto.
+    inversion Ha; subst. constructor.
+    - rewrite in_app_iff. intros [?|Hx]; [auto|]. apply (Hd x Hx). left; auto.
+    - apply IH; auto. intros u Hu Hin. apply (Hd u Hu). right; auto.
+  Qed.
+
+  Lemma WF_append_ring st (l : list tid) :
+    WF st -> NoDup l -> (forall u, In u l -> th_state (getth st u) = READY /\ ~ In u (s_runq st)) ->
+    WF (set_runq st (s_runq st ++ l)).
+  Proof.
+    intros W Hnd Hl.
+    apply (WF_restate st); auto; try reflexivity; try apply W.
+    - intros; split; reflexivity.
+    - stsimpl. apply NoDup_app_disjoint; auto; [apply W|]. intros u Hu. apply Hl; auto.
+    - intros u. stsimpl. change (getth (set_runq st (s_runq st ++ l)) u) with (getth st u).
+      rewrite in_app_iff. intros [Hu|Hu]; [apply W; auto|].
+      destruct (Hl _ Hu) as (-> & _). split; discriminate.
+    - stsimpl. rewrite in_app_iff. left. apply W.
+  Qed.
+
+  Lemma resume_threads_spec st :
+    WF st ->
+    exists woken,
+      let st' := fst (resume_threads st) in
+      let now' := if hempty (s_sleepq st) then s_now st else s_clock st in
+      snd (resume_threads st) = length woken /\
+      WF st' /\ NoDup woken /\ s_runq st' = s_runq st ++ woken /\
+      s_now st' = now' /\ s_clock st' = s_clock st /\ s_trace st' = s_trace st /\ nthreads st' = nthreads st /\
+      s_user st' = s_user st /\ s_end st' = s_end st /\ s_stuck st' = s_stuck st /\
+      (forall u, In u woken -> th_state (getth st u) = SLEEPING /\ th_ts (getth st u) <= now' /\
+                               getth st' u = set_tstate (set_twaitq (getth st u) None) READY) /\
+      (forall u, ~ In u woken -> getth st' u = getth st u) /\
+      (forall u, th_state (getth st' u) = SLEEPING -> now' < th_ts (getth st' u)).
+  Proof.
+    intros W. unfold resume_threads. rewrite (wf_standby _ W). cbn [drain_standby].
+    set (st1 := set_standby st []).
+    assert (W1 : WF st1).
+    { apply (WF_same st); auto. unfold same_sched, st1; repeat split; try reflexivity. stsimpl. symmetry. apply W. }
+    change (s_sleepq st1) with (s_sleepq st).
+    destruct (hempty (s_sleepq st)) eqn:He.
+    - exists []. cbn [fst snd length]. rewrite app_nil_r.
+      assert (Hns : forall u, th_state (getth st u) <> SLEEPING).
+      { intros u Hu. apply (wf_sleep _ W) in Hu. unfold hempty in He. destruct (hq (s_sleepq st)); [destruct Hu|discriminate]. }
+      split; [reflexivity|]. split.
+      { apply (WF_same st1); auto. unfold same_sched; repeat split; reflexivity. }
+      split; [constructor|]. split; [reflexivity|].
+      repeat split; try reflexivity.
+      + intros u [].
+      + intros u []. 
+      + intros u []. 
+      + intros u Hu. exfalso. eapply Hns; eauto.
+    - set (st2 := update_now st1).
+      assert (W2 : WF st2) by (apply WF_update_now; auto).
+      destruct (resume_expired_spec (length (hq (s_sleepq st2))) st2 [] W2 (le_n _)) as (wk & Hacc & W3 & Hnd & R3 & Hw & Ho & Hd & Fr).
+      destruct (resume_expired (length (hq (s_sleepq st2))) st2 []) as (st3, woken) eqn:Er.
+      cbn [fst snd] in *. simpl in Hacc. subst woken.
+      exists wk. cbn [app]. split; [reflexivity|].
+      assert (Hwk : forall u, In u wk -> th_state (getth st3 u) = READY /\ ~ In u (s_runq st3)).
+      { intros u Hu. destruct (Hw _ Hu) as (X1 & X2 & X3). split.
+        - rewrite X3. reflexivity.
+        - rewrite R3. apply sleeping_not_in_ring; auto. }
+      split; [apply WF_append_ring; auto|]. split; [exact Hnd|].
+      split; [stsimpl; rewrite R3; reflexivity|].
+      split; [exact (fr_now _ _ Fr)|]. split; [exact (fr_clock _ _ Fr)|]. split; [exact (fr_trace _ _ Fr)|].
+      split; [exact (fr_n _ _ Fr)|]. split; [exact (fr_user _ _ Fr)|]. split; [exact (fr_end _ _ Fr)|].
+      split; [exact (fr_stuck _ _ Fr)|].
+      split; [|split].
+      + intros u Hu. destruct (Hw _ Hu) as (X1 & X2 & X3). auto.
+      + intros u Hu. apply (Ho u Hu).
+      + intros u Hu. apply (Hd u Hu).
+  Qed.
+
+  (* ---- the idler's round ------------------------------------------------------------------------ *)
+  Lemma WF_set_clock st x : WF st -> s_now st <= x -> WF (set_clock st x).
+  Proof.
+    intros W Hx. apply (WF_restate st); auto; try reflexivity; try apply W.
+    intros; split; reflexivity.
+  Qed.
+
+  Lemma WF_idler_round st : WF st -> WF (idler_round st).
+  Proof.
+    intros W. unfold idler_round.
+    destruct (resume_threads_spec st W) as (wk & Hn & W1 & _ & R1 & N1 & C1 & _).
+    destruct (resume_threads st) as (st1, count). cbn [fst snd] in *.
+    destruct (negb (Nat.eqb count 0) || negb (match s_runq st1 with [_] => true | _ => false end)) eqn:E.
+    - (* yield *)
+      destruct (s_runq st1) as [|a [|b r]] eqn:Er.
+      + exfalso. pose proof (wf_idler _ W1) as X. rewrite Er in X. destruct X.
+      + (* single: then count <> 0, i.e. wk <> [], but runq st1 = runq st ++ wk has >= 2 elements *)
+        exfalso. rewrite orb_false_r in E. apply negb_true_iff, Nat.eqb_neq in E.
+        pose proof (wf_idler _ W) as X. destruct (s_runq st) as [|x r']; [destruct X|].
+        destruct wk as [|y wk']; [simpl in Hn; congruence|].
+        simpl in R1. destruct r'; simpl in R1; [discriminate|discriminate].
+      + eapply WF_do_yield; eauto.
+    - destruct (front (s_sleepq st1)) as [t|].
+      + destruct (th_ts (getth st1 t) =? MAX64); [apply (WF_same st1); auto; apply same_sched_set_end|].
+        apply WF_set_clock; auto.
+        pose proof (wf_clock _ W1). assert (0 <= Z.min IDLE_CAP (sat_sub (th_ts (getth st1 t)) (s_now st1))).
+        { unfold sat_sub, IDLE_CAP. destruct (_ <? _) eqn:X; [lia|]. apply Z.ltb_ge in X. lia. }
+        lia.
+      + apply (WF_same st1); auto; apply same_sched_set_end.
   Qed.
 
 End INV.
 
-Arguments WF {U}. Arguments same_sched {U}. Arguments ring_ok.
+Arguments WF {U}. Arguments same_sched {U}.
